@@ -90,7 +90,7 @@ type renv struct {
 	lastN  uint64
 
 	overlap, discards, reopens, switched, bufferFull, maxActive, dupRefused, outOfOrder int
-	staleOrder                                                                     bool
+	staleOrder                                                                          bool
 }
 
 func (r *renv) failf(format string, args ...any) {
